@@ -1425,7 +1425,7 @@ func (g *c03Gen) shutdown(okp int) {
 	}
 }
 
-func (c03) Gen(r *Rand, i int, tier string) Sx {
+func c03GenCfg(r *Rand) (Sx, []Sx, int) {
 	bs := r.Pick([]int{32, 48, 64, 64})
 	sector := r.Pick([]int{1, 4, 16})
 	old, cur, nw := 1+r.Intn(2), 1+r.Intn(2), 1+r.Intn(3)
@@ -1459,6 +1459,66 @@ func (c03) Gen(r *Rand, i int, tier string) Sx {
 		}
 		objs = append(objs, LBytes(data))
 	}
+	return cfg, objs, nkeys
+}
+
+// c03Sweep: one base scenario per group of cases (geometry, objects, traffic
+// with uploads left in flight, a commit cycle in progress); within the group
+// the shutdown request is inserted at every position of the schedule in turn.
+// After it the put loop is driven to termination, the uploads still in flight
+// end (they must be refused or covered) and one more upload is attempted.
+func c03Sweep(j int, salt uint64) Sx {
+	const group = 24
+	sub := NewRand((uint64(j/group)+salt*4096)*2654435761 + 99)
+	cfg, objs, nkeys := c03GenCfg(sub)
+	g := &c03Gen{r: sub, nkeys: nkeys, busy: map[int]int{}}
+	g.whole()
+	g.traffic(4+sub.Intn(4), 100)
+	// a commit cycle whose steps are individually scheduled
+	g.start()
+	g.add(L(A(9), A(10)), L(A(10), A(1)))
+	g.finish(g.anyBusy())
+	g.add(L(A(7), A(1)))
+	g.start()
+	g.add(L(A(8), A(1)))
+	g.whole()
+	base := g.ops
+	pos := (j % group) * (len(base) + 1) / group
+	ops := append([]Sx{}, base[:pos]...)
+	ops = append(ops, L(A(11)))
+	ops = append(ops, base[pos:]...)
+	g.ops = ops
+	// the steps of the final commit, then whatever is still in flight
+	pick := NewRand((uint64(j)+salt*4096)*7919 + 5)
+	for k := pick.Intn(4); k > 0; k-- {
+		g.add(L(AI(7+pick.Intn(2)), A(1)))
+		if pick.Chance(40) {
+			g.r = pick
+			g.finish(g.anyBusy())
+		}
+	}
+	g.add(L(A(12)))
+	g.r = pick
+	for len(g.busy) > 0 {
+		g.finish(g.anyBusy())
+	}
+	g.whole()
+	return L(cfg, L(objs...), L(L(A(0), L(g.ops...)), L(AI(pick.Intn(9)), L())))
+}
+
+// c03Salt distinguishes the sweep groups of different harness processes
+// (workers); it is drawn from the first case's generator state.
+var c03Salt uint64
+
+func (c03) Gen(r *Rand, i int, tier string) Sx {
+	if c03Salt == 0 {
+		c03Salt = r.U64()%1000000 + 1
+	}
+	if i%4 == 3 {
+		return c03Sweep(i/4, c03Salt)
+	}
+	cfg, objsL, nkeys := c03GenCfg(r)
+	objs2 := L(objsL...)
 	okp := 85
 	if r.Chance(40) {
 		okp = 100
@@ -1508,28 +1568,56 @@ func (c03) Gen(r *Rand, i int, tier string) Sx {
 		}
 		incs = append(incs, L(AI(r.Intn(9)), L(g.ops...)))
 	}
-	return L(cfg, L(objs...), L(incs...))
+	return L(cfg, objs2, L(incs...))
 }
 
 func (c03) Class(in, obs Sx) (string, bool) {
 	if obs.Len() == 1 && obs.Nth(0).IsAtom {
 		return "shutdown/abnormal", true
 	}
-	acks, pops, refused, graceful, crash, commits, lost, found := 0, 0, 0, 0, 0, 0, 0, 0
+	// how each incarnation ended (as the monitor sees it), what was at stake
+	acks, pops, refused, graceful, ccrash, ucrash, found, lost, inflight, lateAck := 0, 0, 0, 0, 0, 0, 0, 0, 0, 0
 	useful := false
 	for n, h := range obs.List {
-		closed, exited, a, w := false, false, 0, 0
-		for _, x := range h.List {
+		closed, exited, a := false, false, 0
+		lastput, syncStart, syncDone, commit := 0, 0, 0, 0
+		syncOK, cancelled := false, false
+		cover := map[int64]int{}
+		open := 0
+		for pos, x := range h.List {
 			switch x.Nth(0).Int() {
 			case 2:
 				pops++
+			case 3, 4:
+				lastput = pos + 1
+				if x.Nth(0).Int() == 3 {
+					open++
+				} else {
+					open--
+				}
 			case 8:
+				syncStart, syncOK = pos+1, false
 				if x.Nth(1).Z != 0 {
 					closed = true
 				}
+			case 11:
+				if x.Nth(1).Z != 0 {
+					syncOK = true
+				}
+			case 9:
+				if syncOK {
+					syncDone = syncStart
+				}
+			case 6:
+				cover[x.Nth(1).Z] = syncDone
 			case 13:
-				if x.Nth(2).Z != 0 {
-					w++
+				if x.Nth(2).Z != 0 && cover[x.Nth(1).Z] > commit {
+					commit = cover[x.Nth(1).Z]
+				}
+			case 17:
+				cancelled = true
+				if open > 0 {
+					inflight++
 				}
 			case 18:
 				exited = true
@@ -1538,6 +1626,9 @@ func (c03) Class(in, obs Sx) (string, bool) {
 				if r.Nth(0).Z == 0 {
 					if r.Nth(1).Z == 0 {
 						a++
+						if cancelled && !closed {
+							lateAck++
+						}
 					} else if closed && r.Nth(1).Z == int64(codes.Unavailable) {
 						refused++
 					}
@@ -1551,14 +1642,16 @@ func (c03) Class(in, obs Sx) (string, bool) {
 			}
 		}
 		acks += a
-		commits += w
 		if n+1 < obs.Len() {
-			if exited {
+			switch {
+			case exited:
 				graceful++
-			} else {
-				crash++
+			case lastput < commit:
+				ccrash++
+			default:
+				ucrash++
 			}
-			if a > 0 && (exited || w > 0) {
+			if a > 0 && (exited || lastput < commit) {
 				useful = true
 			}
 		}
@@ -1572,6 +1665,13 @@ func (c03) Class(in, obs Sx) (string, bool) {
 		}
 		return "3+"
 	}
-	cls := "shutdown/g" + b(graceful) + "-c" + b(crash) + "-ack" + b(acks) + "-pop" + b(pops) + "-refused" + b(refused) + "-found" + b(found) + "-lost" + b(lost)
+	y := func(n int) string {
+		if n > 0 {
+			return "1"
+		}
+		return "0"
+	}
+	cls := "shutdown/g" + y(graceful) + "-cc" + y(ccrash) + "-uc" + y(ucrash) + "-ack" + b(acks) + "-pop" + b(pops) +
+		"-refused" + y(refused) + "-inflight" + y(inflight) + "-late" + y(lateAck) + "-found" + b(found) + "-lost" + y(lost)
 	return cls, useful && found > 0
 }
